@@ -12,6 +12,7 @@ from vlib import ref
 from vlib.harness import SubCheck, fail, make_trace_machine, must, must_raise, require
 
 PROPERTY_ID = "C14"
+TECHNIQUE = 'stateful property-based testing (Hypothesis RuleBasedStateMachine) over runner call histories with harness-side runner subclasses as instrumentation'
 RULE = (
     "Stateful: one runner per history out of {scripted BaseCircuitRunner subclass, SymbolicSimulator, "
     "BaseWavefunctionSimulator subclass with a drawn native gate set, MeasurementTrackingBackend around "
